@@ -769,6 +769,28 @@ def sc_wrong_psk_responder(run):
     World(run, bad).handshake()
 
 
+def sc_method_rsa_vs_psk_only(run):
+    """the initiator signs with RSA, the responder only has a PSK configured for it -> 'method not supported'"""
+    from props import c19
+
+    def bad(c):
+        c['alice']['my_auth']['privkey'] = c19.PRIV1
+    World(run, bad).handshake()
+
+
+def sc_method_psk_vs_rsa_only(run):
+    """the initiator uses its PSK, the responder only has a public key configured for it; and the other way round"""
+    from props import c19
+
+    def bad(c):
+        c['bob']['peer_auth'] = {'id': 'alice@openikev2', 'pubkey': c19.PUB1}
+    World(run, bad).handshake()
+
+    def bad2(c):
+        c['alice']['peer_auth'] = {'id': 'bob@openikev2', 'pubkey': c19.PUB1}
+    World(run, bad2).handshake()
+
+
 def sc_no_proposal_init(run):
     def bad(c):
         c['alice']['dh'] = [16]
@@ -927,6 +949,8 @@ SCENARIOS = [
     ('create-child-with-ke', sc_create_child_with_ke), ('rekey-child', sc_rekey_child),
     ('rekey-ike-sa', sc_rekey_ike_sa), ('informational-dpd-delete', sc_informational),
     ('auth-failed-wrong-psk', sc_wrong_psk), ('auth-failed-wrong-psk-responder', sc_wrong_psk_responder),
+    ('auth-failed-method-rsa-vs-psk-only', sc_method_rsa_vs_psk_only),
+    ('auth-failed-method-psk-vs-rsa-only', sc_method_psk_vs_rsa_only),
     ('no-proposal-chosen-init', sc_no_proposal_init), ('no-proposal-chosen-auth', sc_no_proposal_auth),
     ('invalid-ke-init', sc_invalid_ke), ('invalid-ke-child', sc_child_invalid_ke),
     ('ts-unacceptable', sc_ts_unacceptable), ('cookie', sc_cookie), ('malformed-messages', sc_malformed),
